@@ -280,18 +280,18 @@ theorem invL_extend {N : Nat} {s s' : State} {n t c : Nat} {L : List Entry} (h :
       rw [this]; exact ⟨h1, h2, h3, h4⟩
   · intro u l d k kt cc pfx hmem
     rw [hmsgs] at hmem
-    obtain ⟨h1, h2, h3, h4, h5⟩ := h.msg_snap u l d k kt cc pfx hmem
+    obtain ⟨h1, h2, h3, h5⟩ := h.msg_snap u l d k kt cc pfx hmem
     by_cases hu : u = t
     · subst hu
       have htlu : s'.g.termLog u = L ++ [⟨u, c⟩] := by rw [htl]; simp [upd1]
       rcases hcase with hc | hc
       · rw [hc] at h1 h2 h3
         rw [htlu]
-        refine ⟨by simp; omega, ?_, by rw [termAt_append_left h1]; exact h3, h4, h5⟩
+        refine ⟨by simp; omega, ?_, by rw [termAt_append_left h1]; exact h3, h5⟩
         rw [List.take_append_of_le_length (by omega)]; exact h2
       · rw [hc] at h1; simp at h1
     · have : s'.g.termLog u = s.g.termLog u := by rw [htl]; simp [upd1, hu]
-      rw [this]; exact ⟨h1, h2, h3, h4, h5⟩
+      rw [this]; exact ⟨h1, h2, h3, h5⟩
   · intro u cd d li lt hmem
     rw [hmsgs] at hmem
     have := h.msg_reqVote_le u cd d li lt hmem
@@ -355,12 +355,12 @@ theorem invL_becomeLeader {N : Nat} {s : State} {n : Nat} {ns : NodeSt} (h : Inv
   · simp [becomeLeader]
   · intro k hk; simp [becomeLeader, setNode, hk]
 
-theorem invL_sendAppend {N s s' n dst prev k} (h : InvL N s) (he : InvE N s)
-    (hs : step N s (.sendAppend n dst prev k) = some s') : InvL N s' := by
+theorem invL_sendAppend {N s s' n dst prev k c} (h : InvL N s) (he : InvE N s)
+    (hs : step N s (.sendAppend n dst prev k c) = some s') : InvL N s' := by
   simp only [step] at hs
   split at hs
   · rename_i hg
-    obtain ⟨_, _, hrole, hprev⟩ := hg
+    obtain ⟨_, _, hrole, hprev, _⟩ := hg
     injection hs with hs; subst hs
     have hll := h.ldr_log n hrole
     have hpos := (he.self_vote n (by rw [hrole]; decide)).2.2
@@ -386,13 +386,12 @@ theorem invL_sendAppend {N s s' n dst prev k} (h : InvL N s) (he : InvE N s)
       · simp at hmem
   · cases hs
 
-theorem invL_sendSnapshot {N s s' n dst k} (h : InvL N s) (he : InvE N s)
-    (hcm : (s.nodes n).applied ≤ (s.nodes n).commit)
-    (hs : step N s (.sendSnapshot n dst k) = some s') : InvL N s' := by
+theorem invL_sendSnapshot {N s s' n dst k c} (h : InvL N s) (he : InvE N s)
+    (hs : step N s (.sendSnapshot n dst k c) = some s') : InvL N s' := by
   simp only [step] at hs
   split at hs
   · rename_i hg
-    obtain ⟨_, _, hrole, hka, hkl⟩ := hg
+    obtain ⟨_, _, hrole, hka, hkl, _⟩ := hg
     injection hs with hs; subst hs
     have hll := h.ldr_log n hrole
     have hpos := (he.self_vote n (by rw [hrole]; decide)).2.2
@@ -407,7 +406,7 @@ theorem invL_sendSnapshot {N s s' n dst k} (h : InvL N s) (he : InvE N s)
       · simp at hmem
         obtain ⟨rfl, rfl, rfl, rfl, rfl, rfl, rfl⟩ := hmem
         rw [← hll]
-        exact ⟨hkl, rfl, rfl, by omega, hpos⟩
+        exact ⟨hkl, rfl, rfl, hpos⟩
     · intro t c d li lt hmem
       rcases List.mem_append.mp hmem with hmem | hmem
       · exact h.msg_reqVote_le t c d li lt hmem
@@ -671,7 +670,7 @@ theorem invL_recvSnapshot {N s s' n m} (h : InvL N s) (hs : step N s (.recvSnaps
         intro m hm _; exact List.mem_of_mem_erase hm
       · rename_i hnlt
         injection hs with hs; subst hs
-        obtain ⟨hk1, hk2, hk3, hk4, hk5⟩ := h.msg_snap _ _ _ _ _ _ _ hmem
+        obtain ⟨hk1, hk2, hk3, hk5⟩ := h.msg_snap _ _ _ _ _ _ _ hmem
         split
         · -- keep the log
           refine invL_frame h rfl rfl ?_ ?_
@@ -763,7 +762,7 @@ theorem invA_step {N : Nat} {s s' : State} {a : Action} (h : InvA s) (hL : InvL 
     split at hs
     · injection hs with hs; subst hs; exact invA_setNode h (h n)
     · cases hs
-  | sendAppend n dst prev k =>
+  | sendAppend n dst prev k c =>
     simp only [step] at hs
     split at hs
     · injection hs with hs; subst hs; exact h
@@ -817,7 +816,7 @@ theorem invA_step {N : Nat} {s s' : State} {a : Action} (h : InvA s) (hL : InvL 
     split at hs
     · injection hs with hs; subst hs; exact invA_setNode h (by simp; exact h n)
     · cases hs
-  | sendSnapshot n dst k =>
+  | sendSnapshot n dst k c =>
     simp only [step] at hs
     split at hs
     · injection hs with hs; subst hs; exact h
@@ -831,12 +830,11 @@ theorem invA_step {N : Nat} {s s' : State} {a : Action} (h : InvA s) (hL : InvL 
         split at hs
         · injection hs with hs; subst hs; exact h
         · injection hs with hs; subst hs
-          have hkc := (hL.msg_snap _ _ _ _ _ _ _ hg.2).2.2.2.1
           apply invA_setNode h
           have := h n
           split
           · simp only [adoptTerm_applied, adoptTerm_commit]; split <;> omega
-          · simp only [adoptTerm_commit]; split <;> omega
+          · simp only [adoptTerm_commit]; omega
       · cases hs
     · cases hs
   | lose m =>
@@ -871,14 +869,14 @@ theorem invL_step {N : Nat} {s s' : State} {a : Action} (h : InvL N s) (he : Inv
   | recvReqVote n m => exact invL_recvReqVote h hs
   | recvVote n m => exact invL_recvVote h he hs
   | clientAppend n cmd => exact invL_clientAppend h he hs
-  | sendAppend n dst prev k => exact invL_sendAppend h he hs
+  | sendAppend n dst prev k c => exact invL_sendAppend h he hs
   | recvAppend n m => exact invL_recvAppend h hs
   | recvAck n m => exact invL_recvAck h hs
   | advanceCommit n i => exact invL_advanceCommit h hs
   | stepDown n => exact invL_stepDown h hs
   | apply n => exact invL_apply h hs
   | observeTerm n t => exact invL_observeTerm h hs
-  | sendSnapshot n dst k => exact invL_sendSnapshot h he (ha n) hs
+  | sendSnapshot n dst k c => exact invL_sendSnapshot h he hs
   | recvSnapshot n m => exact invL_recvSnapshot h hs
   | lose m => exact invL_lose h hs
   | restart n c a => exact invL_restart h hs
